@@ -301,6 +301,12 @@ impl<T: Copy + Number + std::fmt::Debug> Sparse<T> {
 }
 
 impl Sparse<f64> {
+    /// The residual norm ||b - Ax|| / normb computed from x itself ( not from a recurrence ); success
+    /// is only reported once this confirms the recursively updated residual
+    fn true_residual( &self, b: &Vector<f64>, x: &Vector<f64>, normb: f64 ) -> f64 {
+        ( b.clone() - self.multiply( x ) ).norm_2() / normb
+    }
+
     /// Solve the system of equations Ax=b using the biconjugate gradient method 
     /// with a specified maximum number of iterations and tolerance.
     /// itol = 1: relative residual norm
@@ -364,7 +370,7 @@ impl Sparse<f64> {
             rho_2 = rho_1;
             if itol == 1 { err = r.norm_2() / bnrm; }
             if itol == 2 { err = z.norm_2() / bnrm; }
-            if err <= tol { return Ok( iter ); }
+            if err <= tol && self.true_residual( b, x, bnrm ) <= tol { return Ok( iter ); }
         }
         Err(err)
     }
@@ -416,21 +422,18 @@ impl Sparse<f64> {
             v = self.multiply( &phat );
             alpha = rho_1 / rtilde.dot( &v );
             s = r.clone() - v.clone() * alpha;
+            *x += alpha * phat.clone();
             resid = s.norm_2() / normb;
-            if resid <= tol {
-                *x += phat.clone() * alpha;
-                return Ok( i );
-            }
+            if resid <= tol && self.true_residual( b, x, normb ) <= tol { return Ok( i ); }
             //shat = s; //could have preconditioner here shat = M.solve(s);
             self.identity_preconditioner( &s, &mut shat );
             t = self.multiply( &shat );
             omega = t.dot( &s ) / t.dot( &t );
-            *x += alpha * phat.clone();
             *x += omega * shat.clone();
             r = s - t * omega;
             rho_2 = rho_1;
             resid = r.norm_2() / normb;
-            if resid < tol { return Ok( i ); }
+            if resid < tol && self.true_residual( b, x, normb ) <= tol { return Ok( i ); }
             if omega == 0.0 { return Err( resid ); }
         }
         Err(resid)
@@ -481,7 +484,7 @@ impl Sparse<f64> {
             *x += p.clone() * alpha;
             r -= q.clone() * alpha;
             resid = r.norm_2() / normb;
-            if resid <= tol { return Ok( i ); }
+            if resid <= tol && self.true_residual( b, x, normb ) <= tol { return Ok( i ); }
             rho_1 = rho;
         }
         Err(resid)
@@ -610,7 +613,7 @@ impl Sparse<f64> {
             r -= s.clone();
 
             resid = r.norm_2() / normb;
-            if resid <= tol { return Ok( i ); } 
+            if resid <= tol && self.true_residual( b, x, normb ) <= tol { return Ok( i ); } 
         }
         Err(resid)
     }
